@@ -120,7 +120,14 @@ def selection(repo: Repo, chk: Check, rule: str) -> None:
         iso = [c for c, pol in guards if pol and isinstance(c, ast.Call) and unparse(c.func) == "isinstance" and unparse(c.args[0]) == unparse(val.value) and unparse(c.args[1]).endswith("TCPFloor")]
         chk.ob(rule, site, bool(iso), "port taken from an object tested to be a TCPFloor" if iso else f"{unparse(val)} is used without a dominating isinstance({unparse(val.value)}, TCPFloor) test")
         # (b) status test guards it
-        stat = [c for c, pol in guards if isinstance(c, ast.Compare) and unparse(c.left) == f"{res_var}.status" and ((isinstance(c.ops[0], ast.NotEq) and not pol) or (isinstance(c.ops[0], ast.Eq) and pol)) and unparse(c.comparators[0]) == "0"]
+        from .util import prov_text as _pt
+
+        def _is_status(e: ast.expr) -> bool:
+            return f"{res_var}.status" in (unparse(e), _pt(f, e, st))
+
+        stat = [c for c, pol in guards if isinstance(c, ast.Compare) and len(c.ops) == 1 and _is_status(c.left) and ((isinstance(c.ops[0], ast.NotEq) and not pol) or (isinstance(c.ops[0], ast.Eq) and pol)) and unparse(c.comparators[0]) == "0"]
+        # `if result.status: raise` / `if (status := result.status): raise`: the integer status is falsy only when it is 0
+        stat += [c for c, pol in guards if not pol and not isinstance(c, ast.Compare) and _is_status(c)]
         chk.ob(rule, site, bool(stat), "only reached when status == 0" if stat else "the port is selected on a path where the ept_map status was not checked to be 0")
         # (c) first match wins: the selecting node is not on a cycle of the CFG
         on_cycle = _reaches(g, nid, nid)
